@@ -15,7 +15,7 @@ PROP = {
                                      "every-sampler-call-advances-the-passed-generator": 1800,
                                      "metropolis-returns-exactly-the-requested-number-of-samples": 780, "metropolis-2d-returns-exactly-the-requested-number-of-samples": 780,
                                      "poisson-chi-square-pooled-tails": 14, "gauss-kolmogorov-smirnov": 7, "uniform-kolmogorov-smirnov": 7, "rejection-kolmogorov-smirnov": 7,
-                                     "inverse-transform-kolmogorov-smirnov": 7, "metropolis-unbounded-kolmogorov-smirnov": 7, "metropolis-bounded-kolmogorov-smirnov": 7}},
+                                     "inverse-transform-kolmogorov-smirnov": 7, "metropolis-unbounded-kolmogorov-smirnov": 7, "metropolis-bounded-kolmogorov-smirnov": 7, "metropolis-compact-support-kolmogorov-smirnov": 14}},
                "thorough": {"cases": 190000, "distinct_nontrivial": 20000,
                             "clauses": {"equal-generator-states-give-identical-outputs": 180000, "poisson-chi-square-pooled-tails": 140, "gauss-kolmogorov-smirnov": 70}}},
     "exhaustive": {"quick": ["the (sample, thinning, burn_in) grid 8 x 7 x 7 for Sample_Metropolis and Sample_Metropolis_2D"],
